@@ -11,6 +11,7 @@ Script (JSON-able dict):
     ["T", t, sv, code|None, is_last]          state change + servobs[sv].trigger(...)
     ["D", t, sv]                              servobs[sv].deregister()
     ["L", t, sv, code, exc]                   finish the suspended render of task sv
+    ["O", t, sv]                              let the suspended add_observation of task sv return
     ["&", t, [ev, ...]]                       several of the above back to back in ONE callback
   rules: reactions of the observers to datagrams sent to them
     {"remote": n, "mtype": "CON"|"NON"|"ACK"|None, "nth": k, "after": ticks,
@@ -18,6 +19,8 @@ Script (JSON-able dict):
   renders: plans of the resource's render calls in call order: "s" | ["i", code, exc]
            (default ["i", 69, 0])
   decline: list of srv numbers whose add_observation does not accept
+  slow_add: list of srv numbers whose add_observation, after accepting, suspends until its "O" event
+            (such scripts are judged by the oracle only: the model takes add_observation as one step)
   draws: ACK time-outs in ticks;  mid: pinned first message id;  end: tick at which the run stops
 
 Records (out):  s@t:remote:wire   d:sv:remote:wire   x:sv   c:n   k:sv   g:sv:ver   n:sv:code:obs:body:last
@@ -83,6 +86,8 @@ def in_token(ev):
         return f"D@{ev[1]}:{ev[2]}"
     if k == "L":
         return f"L@{ev[1]}:{ev[2]}:{ev[3]}:{1 if ev[4] else 0}"
+    if k == "O":
+        return f"O@{ev[1]}:{ev[2]}"
     raise AssertionError(ev)
 
 
@@ -102,6 +107,8 @@ class Runner:
         self.accepts = {}        # srv -> bool
         self.renders = list(script.get("renders", []))
         self.decline = set(script.get("decline", []))
+        self.slow_add = set(script.get("slow_add", []))
+        self.adding = {}         # srv -> future of the suspended add_observation
         self.in_ticks = []
         self.callbacks_at = {}   # tick -> number of separately scheduled in-callbacks
         self.shutdown_task = None
@@ -233,6 +240,11 @@ class Runner:
         if so is not None:
             so.deregister()
 
+    def do_O(self, ev):
+        fut = self.adding.get(ev[2])
+        if fut is not None and not fut.done():
+            fut.set_result(None)
+
     def do_L(self, ev):
         fut = self.suspended.get(ev[2])
         if fut is not None and not fut.done():
@@ -317,7 +329,7 @@ class Runner:
                 self.net.on_send = None
                 frozen = self.log
                 self.log = []
-                for f in self.suspended.values():
+                for f in list(self.suspended.values()) + list(self.adding.values()):
                     if not f.done():
                         f.cancel()
                 await self.ctx.shutdown()
@@ -353,6 +365,11 @@ def make_resource(runner):
 
             serverobservation.accept = accept
             await super().add_observation(request, serverobservation)
+            if sv in runner.slow_add:
+                # e.g. a resource that persists its subscriptions before it answers
+                fut = runner.loop.create_future()
+                runner.adding[sv] = fut
+                await fut
 
         def update_observation_count(self, newcount):
             runner.rec(f"c:{newcount}")
@@ -396,8 +413,9 @@ def plan_str(plan):
 
 
 def run_script(script):
-    logging.getLogger("coap-server").setLevel(logging.CRITICAL + 1)
-    logging.getLogger("coap").setLevel(logging.CRITICAL + 1)
+    import common
+    common.quiet("coap-server")      # never raise levels: that would skip the implementation's logging calls
+    common.quiet("coap")
     r = Runner(script)
     _, loop = vloop.run(r.main, max_time=1e7)
     # the concrete event sequence: the in-events as executed, and one `W` per task step.  A task
